@@ -236,6 +236,10 @@ pub fn dump(nx: &Nx, spec: &Spec, now: Option<Dump>) -> Dump {
         }
     }
     for &k in &spec.seqs {
+        // sequence 0 is the empty Space: nothing can be written at or below it
+        if k == 0 && spec.seqs.len() > 1 {
+            continue;
+        }
         for text in element_queries(Some(k)) {
             run_into(nx, &mut out, text);
         }
@@ -371,6 +375,7 @@ pub fn params_from(now: &Dump) -> anda_kip::Map<String, Json> {
     bind("a", concept("/Person", "a"), "C-9001");
     bind("b", concept("/Person", "b"), "C-9002");
     bind("d", concept("/Preference", "d"), "C-9003");
+    bind("n", concept("/Insight", "n"), "C-9004");
     let mut props: Vec<&String> = views.keys().filter(|id| id.starts_with("P-")).collect();
     props.sort_by_key(|id| id_number(id));
     bind("p", props.first().map(|id| (*id).clone()), "P-9001");
